@@ -21,7 +21,7 @@ Definition header_of (k : kind) (j : job) : list col :=
   map (fun kv => CP (fst kv)) (jargs j) ++ objcols_of k ++ [CId; CStatus] ++ map (fun kv => CM (fst kv)) (pub_md j).
 
 Definition obj_cell (o : robj) : cell :=
-  match o with ONum (Fin z) => Num z | ONum _ => Str tokF | OStr s => Str s | OTup _ => Empty end.
+  match o with ONum (Fin z) => Num z | ONum _ => Str tokF | OStr s => Str s | OTup _ => Empty | OBad => Str tokF end.
 Definition obji_cell (i : nat) (o : robj) : cell :=
   match o with
   | OTup l => match nth_error l i with Some z => Num z | None => Empty end
